@@ -852,7 +852,11 @@ pub fn generate(args: &Args) -> Vec<String> {
                 if q[k] == q[k + 1] { continue; }
                 let b = q.remove(k + 1);
                 q[k] = format!("{}+{}", q[k], b);
-                l.push(format!("async suspense {sh} {}{}", if rng.chance(1, 3) { "n," } else { "" }, q.join(",")));
+                // (no `n` here: in the first executor turn the waiters on `until_finished()` are polled in creation order BETWEEN the
+                // tasks, so what a waiter sees when a task disposes scopes in that very turn is a scheduling detail the model's
+                // `U=` field does not follow)
+                let _ = rng.chance(1, 3);
+                l.push(format!("async suspense {sh} {}", q.join(",")));
             }
         }
     }
@@ -885,7 +889,7 @@ pub fn generate(args: &Args) -> Vec<String> {
                 in_group.push(e);
                 g += e;
             }
-            line = if rng.chance(1, 3) { format!("n,{g}") } else { g };
+            line = if rng.chance(1, 3) && !has_x { format!("n,{g}") } else { g };
         }
         l.push(format!("async suspense (L {}) {}", show_items(&items), line));
     }
